@@ -125,7 +125,7 @@ fn split_pdf(p: &[f32], half: usize, msd: bool) -> (Vec<(f64, f64)>, Option<f64>
 #[allow(clippy::too_many_arguments)]
 fn check_model(rep: &Report, what: &str, rm: &RModel, m: &Model, states: std::ops::Range<usize>, half: usize, msd: bool, space: &[LabelCase], reached: &Mutex<BTreeMap<String, BTreeSet<(usize, usize)>>>, voice_name: &str) {
     let bad = AtomicU64::new(0);
-    par_for(space.len(), 64, |li| {
+    rep.par_for(space.len(), 64, "C04 part 1", |li| {
         if bad.load(Ordering::Relaxed) > 3 {
             return;
         }
@@ -548,7 +548,7 @@ pub fn run(tier: Tier) -> i32 {
     let q_yes = AtomicU64::new(0);
     let never_yes = AtomicU64::new(0);
     let regex_names = Mutex::new(Vec::new());
-    par_for(qlist.len(), 1, |qi| {
+    rep.par_for(qlist.len(), 1, "C04 part 2", |qi| {
         let (name, pats) = qlist[qi];
         let slice: Vec<&str> = pats.iter().map(|s| s.as_str()).collect();
         let q = match catch(|| Question::parse(&slice)) {
@@ -624,7 +624,7 @@ pub fn run(tier: Tier) -> i32 {
         let picked: Vec<&(usize, usize, usize, Vec<(String, bool)>)> = todo.iter().skip(seed() as usize % stride).step_by(stride).collect();
         let built: Mutex<Vec<LabelCase>> = Mutex::new(Vec::new());
         let failed = AtomicU64::new(0);
-        par_for(picked.len(), 1, |i| {
+        rep.par_for(picked.len(), 1, "C04 part 3", |i| {
             let (ni, _st, _leaf, path) = picked[i];
             match construct_label(path, &named[*ni].1.questions, &bases, &cand) {
                 Some(lc) => built.lock().unwrap().push(lc),
@@ -762,7 +762,7 @@ pub fn run(tier: Tier) -> i32 {
     let leaves_seen = AtomicU64::new(0);
     let leaves_total = AtomicU64::new(0);
     let files_ok = AtomicU64::new(0);
-    par_for(files.len(), 4, |fi| {
+    rep.par_for(files.len(), 4, "C04 part 4", |fi| {
         let fc = &files[fi];
         let spec = build_file(fc, &pool, &all_shapes);
         let bytes = write(&spec);
